@@ -136,7 +136,7 @@ func checkTracker(r *core.R, m *model, dt *deltatracker.DeltaTracker[int, int], 
 
 func run(r *core.R) {
 	r.FaultDecl("replace_iter_error", "dp_update_error", "dp_delete_error", "dp_batch_partial", "dp_load_error", "external_edit", "dp_delete_enoent")
-	r.ProbeDecl("iter_update_dataplane", "iter_mutate_other_key", "batch_over_128", "aliasing_equal_values", "resync_found_drift", "apply_converged")
+	r.ProbeDecl("iter_update_dataplane", "iter_mutate_other_key", "batch_over_128", "aliasing_equal_values", "resync_found_drift", "apply_converged", "batch_delete_enoent")
 	mode := r.Src.Weighted([]int{4, 2, 4}, "mode")
 	r.Cfg("mode", []string{"tracker", "set_tracker", "caching_map"}[mode])
 	switch mode {
@@ -503,19 +503,22 @@ func keys(m map[int]bool) []int {
 var errNotExist = errors.New("ENOENT")
 
 type backing struct {
-	loaded   bool // a Load has succeeded at least once
-	stale    bool // the map was edited behind the cache since the last successful Load
-	r        *core.R
-	kv       map[int]int
-	faultsOn bool
-	pUpd     int
-	pDel     int
-	pLoad    int
-	calls    int
+	loaded        bool // a Load has succeeded at least once
+	stale         bool // the map was edited behind the cache since the last successful Load
+	r             *core.R
+	kv            map[int]int
+	faultsOn      bool
+	pUpd          int
+	pDel          int
+	pLoad         int
+	calls         int
+	callsAtOp     int
+	maxCallsPerOp int
 }
 
 func (b *backing) Update(k, v int) error {
 	b.calls++
+	b.budget()
 	if b.faultsOn && b.r.Src.Chance(b.pUpd, "fault_update") {
 		b.r.Fault("dp_update_error")
 		return errors.New("injected update error")
@@ -526,6 +529,7 @@ func (b *backing) Update(k, v int) error {
 
 func (b *backing) Delete(k int) error {
 	b.calls++
+	b.budget()
 	if b.faultsOn && b.r.Src.Chance(b.pDel, "fault_delete") {
 		b.r.Fault("dp_delete_error")
 		return errors.New("injected delete error")
@@ -551,11 +555,21 @@ func (b *backing) Load() (map[int]int, error) {
 	return out, nil
 }
 
+// budget is the bounded-liveness oracle for Apply*: one pass may not need more
+// dataplane calls than a generous multiple of the key universe.
+func (b *backing) budget() {
+	if b.calls-b.callsAtOp > b.maxCallsPerOp {
+		b.r.Violation("apply_livelock", "one Apply made more than %d dataplane calls without finishing", b.maxCallsPerOp)
+	}
+}
+
 func (b *backing) ErrIsNotExists(err error) bool { return errors.Is(err, errNotExist) }
 
 type batchedBacking struct{ *backing }
 
 func (b batchedBacking) BatchUpdate(ks, vs []int) (int, error) {
+	b.calls++
+	b.budget()
 	if len(ks) >= 128 {
 		b.r.Probe("batch_over_128")
 	}
@@ -570,6 +584,8 @@ func (b batchedBacking) BatchUpdate(ks, vs []int) (int, error) {
 }
 
 func (b batchedBacking) BatchDelete(ks []int) (int, error) {
+	b.calls++
+	b.budget()
 	for i := range ks {
 		if b.faultsOn && b.r.Src.Chance(b.pDel/4+1, "fault_batch_delete") {
 			b.r.Fault("dp_batch_partial")
@@ -577,6 +593,7 @@ func (b batchedBacking) BatchDelete(ks []int) (int, error) {
 		}
 		if _, ok := b.kv[ks[i]]; !ok {
 			b.r.Fault("dp_delete_enoent")
+			b.r.Probe("batch_delete_enoent")
 			return i, errNotExist
 		}
 		delete(b.kv, ks[i])
@@ -596,7 +613,7 @@ func runCachingMap(r *core.R) {
 	r.Cfg("batched", batched)
 	r.Cfg("universe", universe)
 	r.Cfg("nops", nops)
-	b := &backing{r: r, kv: map[int]int{}, faultsOn: true,
+	b := &backing{r: r, kv: map[int]int{}, faultsOn: true, maxCallsPerOp: 20*universe + 100,
 		pUpd: r.Src.Intn(300, "p_upd"), pDel: r.Src.Intn(300, "p_del"), pLoad: r.Src.Intn(200, "p_load")}
 	// arbitrary starting dataplane state
 	for i, n := 0, r.Src.Intn(universe+1, "init_n"); i < n; i++ {
@@ -621,6 +638,7 @@ func runCachingMap(r *core.R) {
 		k := r.Src.Intn(universe, "key")
 		v := r.Src.Intn(nvals, "val")
 		desc := ""
+		b.callsAtOp = b.calls
 		switch op {
 		case 0:
 			n := 1
@@ -693,6 +711,7 @@ func runCachingMap(r *core.R) {
 	}
 	// quiesce: faults off, resync, apply: must converge in one pass
 	b.faultsOn = false
+	b.callsAtOp = b.calls
 	if err := cm.LoadCacheFromDataplane(); err != nil {
 		r.Violation("quiesce_load", "fault-free load failed: %v", err)
 	}
@@ -701,6 +720,7 @@ func runCachingMap(r *core.R) {
 	}
 	r.Check("quiesce_converged", eqMap(b.kv, desired), "after fault-free resync+apply backing {%s} != desired {%s}", fmtMap(b.kv), fmtMap(desired))
 	calls := b.calls
+	b.callsAtOp = b.calls
 	if err := cm.ApplyAllChanges(); err != nil {
 		r.Violation("quiesce_apply", "second fault-free ApplyAllChanges failed: %v", err)
 	}
